@@ -80,6 +80,9 @@ func genMutants(repo string) ([]sweepMutant, error) {
 						_ = ms2
 						desc, op = ms[j].desc, ms[j].op
 						line = fset2.Position(nd.Pos()).Line
+						if ms[j].pos.IsValid() {
+							line = fset2.Position(ms[j].pos).Line
+						}
 						done = true
 						return false
 					}
@@ -101,7 +104,10 @@ func genMutants(repo string) ([]sweepMutant, error) {
 	return out, nil
 }
 
-type mutDesc struct{ op, desc string }
+type mutDesc struct {
+	op, desc string
+	pos      token.Pos // where the mutated statement is, when that is not the node visited
+}
 
 // mutationsAt lists the mutations available at node nd; if apply != nil the apply-th one is performed in place.
 func mutationsAt(nd ast.Node, apply *int) []mutDesc {
@@ -110,7 +116,7 @@ func mutationsAt(nd ast.Node, apply *int) []mutDesc {
 		if apply != nil && *apply == len(out) {
 			do()
 		}
-		out = append(out, mutDesc{op, desc})
+		out = append(out, mutDesc{op: op, desc: desc})
 	}
 	switch x := nd.(type) {
 	case *ast.BinaryExpr:
@@ -146,11 +152,13 @@ func mutationsAt(nd ast.Node, apply *int) []mutDesc {
 				if s.Tok == token.ASSIGN || s.Tok == token.ADD_ASSIGN || s.Tok == token.OR_ASSIGN {
 					i := i
 					add("delete-assign", "delete assignment", func() { x.List[i] = &ast.EmptyStmt{Semicolon: s.Pos()} })
+					out[len(out)-1].pos = s.Pos()
 				}
 			case *ast.ExprStmt:
 				if call, ok := s.X.(*ast.CallExpr); ok && !isLogging(call) {
 					i := i
 					add("delete-call", "delete call statement", func() { x.List[i] = &ast.EmptyStmt{Semicolon: s.Pos()} })
+					out[len(out)-1].pos = s.Pos()
 				}
 			}
 		}
